@@ -73,19 +73,19 @@ def recover(m, vfs, wl, wname, after, case, second_kill=None, pid0=70):
     # (1) paths committed before the killed evaluation began still load their old or their new complete value
     for path, (mod, fn) in wl.get("old", {}).items():
         allowed = [SC.expected(mod, fn), SC.expected(*wl.get("old_new", wl["paths"])[path])]
-        res, _, _ = E.run_sequential(m, vfs, SC.body("load", None, None, path, skw), pid=pid0)
+        res, _, _ = E.run_sequential(m, vfs, SC.body("load", None, None, path, skw), pid=0, incarnation=pid0)
         if res[0] != "ok":
             bad(f"committed_path_lost|{res[1]}", f"load({path}) after the crash raised {res[1]}: {res[3]}")
         elif res[1][0] not in allowed:
             bad(f"committed_path_wrong|{C7._abbr(res[1][0])}", f"load({path}) after the crash returned {res[1][0]!r}, allowed {allowed!r}")
     for okw, paths in wl.get("other_views", []):
         for path, (mod, fn) in paths.items():
-            res, _, _ = E.run_sequential(m, vfs, SC.body("load", None, None, path, okw), pid=pid0 + 1)
+            res, _, _ = E.run_sequential(m, vfs, SC.body("load", None, None, path, okw), pid=0, incarnation=pid0 + 1)
             if res[0] != "ok" or res[1][0] != SC.expected(mod, fn):
                 bad("other_view_damaged", f"the other data view no longer loads {path}: {res!r}")
     # (2) the same pipeline evaluated again returns the correct values
     b = SC.body(crash["kind"], crash["mod"], crash["fn"], crash["path"], skw)
-    res, n, _ = E.run_sequential(m, vfs, b, kill_at=second_kill, pid=pid0 + 2)
+    res, n, _ = E.run_sequential(m, vfs, b, kill_at=second_kill, pid=0, incarnation=pid0 + 2)
     if second_kill is not None and res[0] == "killed":
         return probs, n, True
     want = SC.expected(crash["mod"], crash["fn"])
@@ -96,10 +96,10 @@ def recover(m, vfs, wl, wname, after, case, second_kill=None, pid0=70):
         bad(f"reevaluation_wrong|{C7._abbr(res[1][0])}", f"re-evaluating after the crash returned {res[1][0]!r}, expected {want!r}")
     # (3) every path loads the new value  (4) a further evaluation executes nothing
     for path, (mod, fn) in wl["paths"].items():
-        r2, _, _ = E.run_sequential(m, vfs, SC.body("load", None, None, path, skw), pid=pid0 + 3)
+        r2, _, _ = E.run_sequential(m, vfs, SC.body("load", None, None, path, skw), pid=0, incarnation=pid0 + 3)
         if r2[0] != "ok" or r2[1][0] != SC.expected(mod, fn):
             bad("path_wrong_after_recovery", f"after recovery load({path}) gave {r2!r}, expected {SC.expected(mod, fn)!r}")
-    r3, _, _ = E.run_sequential(m, vfs, b, pid=pid0 + 4)
+    r3, _, _ = E.run_sequential(m, vfs, b, pid=0, incarnation=pid0 + 4)
     idle_log = ("root",) if crash["kind"] == "eval" else ()   # the evaluated root itself is not a kept function
     if r3[0] != "ok" or r3[1][0] != want or r3[1][1] != idle_log:
         bad("second_evaluation_recomputes", f"a further evaluation gave {r3!r} (expected the value and an empty execution log)")
@@ -186,7 +186,8 @@ def run(tier, seed):
                              "inside the recovery evaluation (second kill); distinct_nontrivial = distinct surviving directory states; the un-killed trace of "
                              "each workload is replayed against a real directory",
                         samples=[{"workload": per[0]["workload"], "primitives": per[0]["primitives"], "kill_points": f"0..{per[0]['primitives']}"}])
-    res.assumptions = ["kill -9 semantics: process state lost, completed system calls durable (no power-loss reordering)",
+    res.assumptions = ["every recovery process gets the same pid as the killed one (fresh randomness): the worst case for pid-derived temporary names",
+                       "kill -9 semantics: process state lost, completed system calls durable (no power-loss reordering)",
                        "every write call reaches the file at once (no user-space buffering): a superset of the states a buffered writer leaves"]
     return res
 
